@@ -410,6 +410,35 @@ def proto7 : Proto where
   isAccept := P7.isAccept
 
 
+/-! ## A timed fair suffix (C02 c over two full connections)
+
+One round: the clock advances by one retransmission interval and both sides tick, it advances by one
+send interval and both sides tick again (every tick happens at or after the deadline `needs_tick`
+reported — a tick before its deadline does nothing); then the datagrams `a` emitted by its two ticks
+are delivered to `b` once, in order, then those `b` emitted by its two ticks to `a`.  Datagrams emitted
+*while a delivery is processed* (the resend answering a resend request) are not delivered. -/
+
+def deliverRange {P : Proto} (to : Side) (lo hi : Nat) (alt : P.Alt) : List (Move P) :=
+  (List.range' lo (hi - lo)).map fun i => .deliver to i [] alt
+
+def tickMoves {P : Proto} : List (Move P) :=
+  [.advance resendUs, .call .a [] .tick, .call .b [] .tick, .advance sendUs, .call .a [] .tick, .call .b [] .tick]
+
+def timedRound {P : Proto} (alt : P.Alt) (w : World P) : Option (World P) :=
+  match run w tickMoves with
+  | none => none
+  | some w1 =>
+    match run w1 (deliverRange .b w.a.out.length w1.a.out.length alt) with
+    | none => none
+    | some w2 => run w2 (deliverRange .a w.b.out.length w1.b.out.length alt)
+
+def timedRounds {P : Proto} (alt : P.Alt) : Nat → World P → Option (World P)
+  | 0, w => some w
+  | k + 1, w =>
+    match timedRound alt w with
+    | none => none
+    | some w1 => timedRounds alt k w1
+
 /-! ## 0.6: an accepting side created by `Connection::new_accept_token`
 
 The handshake was answered by a stateless listener: the accepting connection object `b` starts
